@@ -159,7 +159,7 @@ Definition spec_length (e : env) (root_of_doc : Q) (fs : option Q) (v : lval) : 
   | LDim x u =>
       let f := match fs with Some f => f | None => own_fs e end in
       match u with
-      | Pct => if Qzero x then Some 0 else None
+      | Pct => None            (* percentages are kept, 0% included: they are resolved at layout time *)
       | Px => Some x | In_ => Some (x * 96) | Pt => Some (x * 96 / 72) | Pc => Some (x * 96 / 6)
       | Cm => Some (x * 96 / (254 # 100)) | Mm => Some (x * 96 / (254 # 10)) | Qu => Some (x * 96 / (1016 # 10))
       | Em => Some (x * f) | Ex => Some (x * f * ex_ratio e) | Ch => Some (x * f * ch_ratio e)
